@@ -290,7 +290,7 @@ int _vnacal_new_add_common(vnacal_new_add_arguments_t vnaa)
     int m_cell_map[MAX(1, MIN(b_cells, full_m_rows * full_m_columns))];
 
     /* map from s_matrix index to vnm_s_matrix index */
-    int s_cell_map[s_cells];
+    int s_cell_map[MAX(1, MIN(s_cells, full_s_rows * full_s_columns))];
 
     /* which VNA ports are connected to the standard */
     bool port_connected[full_s_ports];
